@@ -682,7 +682,7 @@ def run(spec, ctx):
         segack = st.tuples(st.integers(0, 12), st.one_of(st.integers(0, 12), st.integers(0, 255)), st.sampled_from([0, 1, 2, 16, 127, 255]), st.booleans(), st.booleans()).map(
             lambda t: LD.RN.encode(dict(msg=None, dadr=None, sadr=None, er=False, prio=0, hop=None,
                                         data=RA.encode(dict(type=RA.SEGACK, nak=t[3], srv=t[4], invoke=t[0], seq=t[1], win=t[2])))).hex())
-        iam = st.tuples(st.sampled_from([99, 2, 7]), st.sampled_from([50, 128, 480, 1476]), st.integers(0, 3)).map(lambda t: LD.iam_frame(*t).hex())
+        iam = st.tuples(st.sampled_from([99, 2, 7]), st.sampled_from([50, 128, 480, 1476, 0, 49, 70000]), st.sampled_from([0, 1, 2, 3, 0, 1, 2, 3, 4, 9, 255])).map(lambda t: LD.iam_frame(*t).hex())
         # the device learns (and re-learns) its network number from Network-Number-Is broadcasts of the routers
         nni = st.tuples(st.sampled_from([3, 4, 9]), st.integers(0, 1), st.integers(0, 1)).map(
             lambda t: "%s@%d*" % (RN.encode(dict(msg=0x13, vendor=None, dadr=None, sadr=None, er=False, prio=0, hop=None, data=RN.encode_msg(0x13, dict(net=t[0], flag=t[1])))).hex(), 98 + t[2]))
@@ -709,8 +709,8 @@ def run(spec, ctx):
         # the requester has announced itself (I-Am with every segmentation support x max-APDU), then asks with and without the
         # segmented-response-accepted bit, for every kind of answer; a second I-Am may arrive between the requests
         n_ = 0
-        for seg in range(4):
-            for mx in (50, 128, 480, 1476):
+        for seg in (0, 1, 2, 3, 4, 200):
+            for mx in (50, 128, 480, 1476) if seg < 4 else (50, 0, 70000):
                 for again in (None, (seg + 1) % 4, seg):
                     steps = [["inject", [LD.iam_frame(99, mx, seg).hex()]]]
                     inv = 20
